@@ -81,6 +81,22 @@ def main():
                '\\U0001F600': '\U0001F600', '\\U0001f600': '\U0001F600',
                '\\101': 'A', '\\7': '\x07', '\\N{BULLET}': '•',
                '\\q': '\\q', '\\ ': '\\ '}
+    # consecutive escapes are decoded one by one: \uXXXX is the code point
+    # XXXX also when it is a surrogate followed by another surrogate escape
+    for hi in (0xD800, 0xD83D, 0xDBFF):
+        for lo in (0xDC00, 0xDE00, 0xDFFF):
+            escapes['\\u%04X\\u%04x' % (hi, lo)] = chr(hi) + chr(lo)
+    escapes['\\x41\\x42'] = 'AB'
+    escapes['\\u0041\\101\\x41'] = 'AAA'
+    # identifier-shaped words with underscores / digits denote themselves
+    for w in ('_', '_1', '_9_', 'a__b', '_e', 'x1'):
+        n += 1
+        try:
+            got = value_of(w)
+        except Exception as e:      # noqa
+            fail(kind='keyword', word=w, error=repr(e))
+        if got != w:
+            fail(kind='keyword', word=w, got=got)
     for esc, val in escapes.items():
         for q in ("'", '"'):
             if esc in ("\\'", '\\"') and esc[1] != q:
